@@ -448,12 +448,16 @@ Section WalkFacts.
     match ws_prefix st with Some p => p | None => base end.
 
   (* C13: which pages are expected, by structural recursion on the tree *)
+  (* a visited directory is processed (index.rst and pages): always in a recursive run; in a
+     non-recursive run with auto-exclusion only when it directly holds a non-excluded file whose
+     name ends in .cmake (case-sensitive) *)
   Definition dir_processed (rel : list str) (children : list node) : bool :=
     negb (ws_auto_exclude st)
     || existsb (fun n => match n with
                          | F fn _ => lc_cmake_suffix fn && negb (excl (rel ++ [fn]) false)
                          | D _ _ => false
-                         end) children.
+                         end) children
+    || ws_recursive st.
 
   Definition expected_in_dir (rel : list str) (children : list node) : list (list str) :=
     if dir_processed rel children
@@ -676,9 +680,10 @@ Section WalkFacts.
 
   Lemma processed_eq : forall rel ch,
     negb (ws_auto_exclude st) || existsb (fun f => lc_cmake_suffix (fst f)) (nonexcl_files rel ch)
+    || ws_recursive st
     = dir_processed rel ch.
   Proof.
-    intros rel ch. unfold dir_processed. f_equal. unfold nonexcl_files.
+    intros rel ch. unfold dir_processed. f_equal. f_equal. unfold nonexcl_files.
     induction ch as [|n r IH]; [reflexivity|].
     destruct n as [fn c|nm sub].
     - rewrite file_entries_F. cbn [filter existsb fst].
@@ -900,10 +905,18 @@ Section WalkFacts.
     keepd rel (D nm ch) = true -> dir_processed (rel ++ [nm]) ch = true.
   Proof.
     intros rel nm ch H. unfold keep_dir in H. apply andb_true_iff in H. destruct H as [_ H].
-    unfold dir_processed. rewrite <- H. f_equal.
+    unfold dir_processed. apply orb_true_iff. left. rewrite <- H. f_equal.
     clear H. induction ch as [|c r IH]; [reflexivity|].
     cbn [existsb]. rewrite IH. destruct c as [fn bytes|nm' sub]; [|reflexivity].
     rewrite <- app_assoc. reflexivity.
+  Qed.
+
+  (* the repair of F23: in a recursive run every visited directory is processed, the input
+     directory included, whether or not it directly holds a CMake file *)
+  Lemma dir_processed_recursive : ws_recursive st = true -> forall rel ch,
+    dir_processed rel ch = true.
+  Proof.
+    intros Hrec rel ch. unfold dir_processed. rewrite Hrec. apply orb_true_r.
   Qed.
   (* ---------------- all files succeed: nothing is cut ---------------- *)
 
@@ -1375,6 +1388,58 @@ Section WalkFacts.
         apply in_files_of. exists bytes. split; assumption.
   Qed.
 
+  (* W5 for recursive runs: no hypothesis about the input directory (F23 repaired) *)
+  Theorem all_written_reachable_recursive : all_ok -> ws_out st = true -> excl [] true = false ->
+    ws_recursive st = true ->
+    forall base top p, In p (write_paths (document st hdrs docfn excl base (KDir top))) ->
+    reachable (run_prefix base) (document st hdrs docfn excl base (KDir top)) p.
+  Proof.
+    intros Hok Ho He Hrec base top p Hin.
+    apply all_written_reachable; try assumption.
+    apply dir_processed_recursive. exact Hrec.
+  Qed.
+
+  (* W5 without any hypothesis about the input directory: when it is not processed the run is
+     not recursive and writes nothing at all *)
+  Lemma unprocessed_top_writes_nothing : forall base top,
+    dir_processed [] top = false -> document st hdrs docfn excl base (KDir top) = [].
+  Proof.
+    intros base top Hp. rewrite document_dir. destruct (excl [] true); [reflexivity|].
+    unfold raw_acts. rewrite visit_dir_eq, Hp. cbn [snd app].
+    unfold dir_processed in Hp. apply orb_false_iff in Hp. destruct Hp as [_ Hrec].
+    rewrite Hrec. reflexivity.
+  Qed.
+
+  Theorem all_written_reachable_always : all_ok -> ws_out st = true -> excl [] true = false ->
+    forall base top p, In p (write_paths (document st hdrs docfn excl base (KDir top))) ->
+    reachable (run_prefix base) (document st hdrs docfn excl base (KDir top)) p.
+  Proof.
+    intros Hok Ho He base top p Hin. destruct (dir_processed [] top) eqn:Hp.
+    - apply all_written_reachable; assumption.
+    - rewrite (unprocessed_top_writes_nothing base top Hp) in Hin. destruct Hin.
+  Qed.
+
+  (* the top index.rst of a processed input directory is written whatever happens to the files:
+     it precedes every page, so no abort can cut it *)
+  Lemma top_index_written : ws_out st = true -> excl [] true = false ->
+    forall base top, dir_processed [] top = true ->
+    In (AWrite [index_rst] (index_of (run_prefix base) [] top))
+       (document st hdrs docfn excl base (KDir top)).
+  Proof.
+    intros Ho He base top Hp. rewrite document_dir, He. unfold raw_acts.
+    rewrite visit_dir_eq, Hp. cbn [snd]. rewrite Ho. cbn [app cut_at_abort].
+    right. left. reflexivity.
+  Qed.
+
+  Theorem top_index_always_written_recursive : ws_out st = true -> ws_recursive st = true ->
+    excl [] true = false -> forall base children,
+    In (AWrite [index_rst] (index_of (run_prefix base) [] children))
+       (document st hdrs docfn excl base (KDir children)).
+  Proof.
+    intros Ho Hrec He base children. apply top_index_written; try assumption.
+    apply dir_processed_recursive. exact Hrec.
+  Qed.
+
   (* snoc-inversion of visited: a visited directory below the top has a visited parent *)
   Lemma visited_parent : forall rel0 ch0 rel' ch',
     visited rel0 ch0 rel' ch' ->
@@ -1622,7 +1687,9 @@ End WalkFacts.
         W2      write_cases page_content
    C14  W3      index_content index_of_entries
         W4      keep_dir_processed toctree_closed_dirs toctree_closed_files
-        W5      toctree_complete all_written_reachable
+        W5      toctree_complete all_written_reachable all_written_reachable_recursive
+                all_written_reachable_always unprocessed_top_writes_nothing
+                top_index_written top_index_always_written_recursive dir_processed_recursive
    C15  W7      excluded_input_no_output
         W8      written_page_from_nonexcluded   (tree form: WalkFacts2.excluded_file_not_written)
         W9      excluded_dir_not_descended
@@ -1649,6 +1716,11 @@ Print Assumptions toctree_closed_dirs.
 Print Assumptions toctree_closed_files.
 Print Assumptions toctree_complete.
 Print Assumptions all_written_reachable.
+Print Assumptions all_written_reachable_recursive.
+Print Assumptions all_written_reachable_always.
+Print Assumptions unprocessed_top_writes_nothing.
+Print Assumptions top_index_written.
+Print Assumptions top_index_always_written_recursive.
 Print Assumptions excluded_input_no_output.
 Print Assumptions written_page_from_nonexcluded.
 Print Assumptions excluded_dir_not_descended.
